@@ -82,4 +82,14 @@ pub fn run(eng: &mut Engine) {
         || strategy(thorough),
         check,
     );
+    eng.prop_part(
+        "very_deep",
+        "one label driven through 258-300 versions (and as many epochs): version / epoch encodings beyond one byte; same oracle; non-trivial = every case; distinct by history",
+        eng.tier.pick(16, 160),
+        || (very_deep_hist_strategy(), prop_oneof![Just(CacheKind::None), Just(CacheKind::Default)], prop_oneof![Just(ParKind::Disabled), Just(ParKind::Default)]).prop_map(|(hist, cache, par)| Case { hist, cache, par }),
+        |c: &Case, ctx: &mut Ctx| {
+            ctx.nontrivial(fp(&c.hist));
+            check(c, ctx)
+        },
+    );
 }
